@@ -3,9 +3,11 @@
 NOTE_COMMON = ("Trusted base: python's ast grammar; the documented semantics of pydantic, shapely, scipy, scikit-learn, "
                "numpy, xarray, rasterio and soundfile; NaN ignored in comparisons. The check decides the listed structural "
                "necessary conditions for all inputs; it does not decide value-level behaviour. Summaries are taken modulo the "
-               "normal forms of DESIGN.md 8.6 / 8.7 (helpers absent from the reference name table inlined, canonical conditionals, "
-               "fill-by-loop accumulators as comprehensions, local functions as lambdas); the thorough tier re-runs the "
-               "mutant catalogue, the engine self-test and the 261 stored seeded changes (140 defects, 121 behaviour-preserving refactors). Every check also runs the shared-state rules G.1 / G.2 (memo keys, mutable defaults, class-level containers) on the functions it summarises.")
+               "normal forms of DESIGN.md 8.6 - 8.8 (helpers absent from the reference name table inlined, renamed / re-parameterised "
+               "helpers resolved through the reference call table, canonical conditionals, fill-by-loop accumulators as "
+               "comprehensions, local functions as lambdas, displays unrolled); where a rule evaluates an extracted formula on a "
+               "grid of placements the verdict holds for the listed points; the thorough tier re-runs the "
+               "mutant catalogue, the engine self-test and the 385 stored seeded changes (224 defects, 161 behaviour-preserving refactors). Every check also runs the shared-state rules G.1 / G.2 (memo keys, mutable defaults, class-level containers) on the functions it summarises.")
 
 CLAIMS = {
     "C01": {
@@ -14,7 +16,7 @@ CLAIMS = {
                 "restored, every sub-adapter store is emitted as a top-level list and re-registered in wiring order, and the "
                 "type table is most-specific-first and consistent with the discriminated union. Codec fidelity of values and "
                 "the n-cycle fixpoint are not decided.",
-        "design_ref": "DESIGN.md section 3, C01 (R01.1-R01.6); R01.7 and the memo-table scenarios in sections 8.2 / 8.6",
+        "design_ref": "DESIGN.md section 3, C01 (R01.1-R01.6); R01.7 and the memo-table scenarios in sections 8.2 / 8.6; R01.8 and the delegated C18 flow rules in sections 8.7 / 8.8",
         "note": NOTE_COMMON,
         "technique": "ast-based field-flow analysis over gated-SSA summaries of every adapter pair; wiring-graph order check",
     },
@@ -44,8 +46,10 @@ CLAIMS = {
                 "every interval endpoint and arity limit (0, MAX_FREQUENCY, their neighbours, lengths 0-6) at the nesting depth of "
                 "the List annotation; normalising validators yield normal form on every ordering; the tag<->class table is complete "
                 "and injective; geometry_validate dispatches on the object's own tag in all three modes; validators return or raise "
-                "convertible errors. pydantic coercion / nesting-shape rejection / JSON dump equality are trusted, not decided.",
-        "design_ref": "DESIGN.md section 3, C03 (R03.1-R03.5); R03.6 point arity in section 8.6",
+                "convertible errors; no class of the hierarchy installs a serializer (the dump is the validated coordinates); every "
+                "constant subscript of the coordinates is covered by an earlier length guard / unpack (no IndexError on short input). "
+                "pydantic coercion / nesting-shape rejection / default JSON dump of lists of floats are trusted, not decided.",
+        "design_ref": "DESIGN.md section 3, C03 (R03.1-R03.5); R03.6 point arity in section 8.6; R03.7 / R03.8 in section 8.8",
         "note": NOTE_COMMON,
         "technique": "guard extraction from gated-SSA summaries, compiled to formulas and compared with the specification on an endpoint grid / all weak orderings",
     },
@@ -55,7 +59,7 @@ CLAIMS = {
                 "(truth tables over named atoms, all orderings of start/end, set-comprehension normal forms); no construction or "
                 "mutation path in the package bypasses validation (package sweep with positive fixture). Equality of behaviour across "
                 "constructor / dict / JSON input is pydantic's (trusted).",
-        "design_ref": "DESIGN.md section 3, C04 (R04.1-R04.3)",
+        "design_ref": "DESIGN.md section 3, C04 (R04.1-R04.3); near-equal placements and C01 pair rules on the relational adapters in section 8.8",
         "note": NOTE_COMMON,
         "technique": "pydantic field-table extraction; guard formulas vs specification truth tables; who-may-call sweep for validation-bypass APIs",
     },
@@ -75,7 +79,7 @@ CLAIMS = {
                 "either geometry is time-only; both geometries prepared with the caller's buffers; canonical IoU with zero-union "
                 "guard in both branches; the area quotient, which has no static bound of 1, is clamped. IoU values, disjoint => 0 "
                 "and shift invariance depend on shapely numerics and are not decided.",
-        "design_ref": "DESIGN.md section 3, C06 (R06.1-R06.5)",
+        "design_ref": "DESIGN.md section 3, C06 (R06.1-R06.5); per-type and grid evaluation in section 8.8",
         "note": NOTE_COMMON,
         "technique": "swap-invariance of gated-SSA summaries under algebraic canonicalisation; canonical-term matching of the IoU; range rule for unclamped area quotients",
     },
@@ -84,7 +88,7 @@ CLAIMS = {
                 "with the caller's buffers; the solver maximises over the unmodified matrix; paired rows/columns leave the leftover "
                 "sets in the same iteration and all leftovers are yielded one-sided; two-sided yields are dominated by a positive-"
                 "affinity test; the reported affinity is the pair's cell (0 one-sided). Optimality of scipy's solver is trusted.",
-        "design_ref": "DESIGN.md section 3, C07 (R07.1-R07.5)",
+        "design_ref": "DESIGN.md section 3, C07 (R07.1-R07.5); complement form and dtype rule in section 8.8",
         "note": NOTE_COMMON,
         "technique": "index/element provenance through enumerate/product; dominance and pairing rules over the event list of the generator",
     },
@@ -94,7 +98,7 @@ CLAIMS = {
                 "of both lists exactly once by the match-loop sources (matcher part + complementary one-sided parts, complement "
                 "checked on the filter predicates); affinity/score flow; pair score from (annotation truth, prediction scores); "
                 "guarded means over exactly the constructed matches / clips; three None-cases with one Match each.",
-        "design_ref": "DESIGN.md section 3, C08 (R08.1-R08.7)",
+        "design_ref": "DESIGN.md section 3, C08 (R08.1-R08.7); object domains and delegated C06 formula rules in section 8.8",
         "note": NOTE_COMMON,
         "technique": "index-domain typing (abstract interpretation of list indices), coverage analysis of comprehension filters, case analysis of the branch guards",
     },
@@ -103,8 +107,9 @@ CLAIMS = {
                 "and no table repeats a term; metric terms have distinct labels/names; each wrapper delegates to the scikit-learn function "
                 "its name says with the sibling-checked 'none'-class handling (None -> num_classes, column 1 - sum), k=3, averaging modes, "
                 "same mask on both arrays; every mean over a selection is guarded against emptiness; each task builds its metric lists from "
-                "its own tables at the right level under its own name. Metric values vs independent formulas / order independence not decided.",
-        "design_ref": "DESIGN.md section 3, C09 (R09.1-R09.5)",
+                "its own tables at the right level under its own name; the per-item results and the truth / score rows a task function "
+                "returns are accumulated in lock-step (same loops, same conditions). Metric values vs independent formulas / order independence not decided.",
+        "design_ref": "DESIGN.md section 3, C09 (R09.1-R09.5); R09.6 in section 8.8",
         "note": NOTE_COMMON,
         "technique": "table-row agreement over resolved names; sibling cross-check of wrapper summaries as canonical terms; guard-dominance rule for means",
     },
@@ -161,7 +166,7 @@ CLAIMS = {
                 "step attribute is computed from the quantities that generate the coordinates (spectrogram frequency/time steps over the "
                 "truncated sample counts given to stft, resample step 1/target); spectrogram origin = source's first time. Frame-exact "
                 "content, monotonicity and axis length depend on soundfile/scipy/np.arange and are not decided.",
-        "design_ref": "DESIGN.md section 3, C15 (R15.1-R15.4)",
+        "design_ref": "DESIGN.md section 3, C15 (R15.1-R15.4); boundary forwarding in section 8.8",
         "note": NOTE_COMMON,
         "technique": "step-provenance sibling rule: canonical-term equality between the advertised step and the generator's arguments; evaluation-order rule for seek/read",
     },
@@ -169,7 +174,7 @@ CLAIMS = {
         "text": "Static decision of: recorded step == generating step (size => (stop-start)/size), trailing-element trim present, wrappers forward "
                 "start/stop/step; get_coord_index decided on all orderings of value vs [start, stop] x raise flag; set_value_at_pos addresses "
                 "each query dimension's own axis with its own index and stores once. Exact np.arange values/counts are not decided.",
-        "design_ref": "DESIGN.md section 3, C16 (R16.1-R16.3)",
+        "design_ref": "DESIGN.md section 3, C16 (R16.1-R16.3); trim-test placements in section 8.8",
         "note": NOTE_COMMON,
         "technique": "keyword-pairing and canonical-term matching; ordering evaluation of the extracted lookup outcomes",
     },
@@ -178,7 +183,7 @@ CLAIMS = {
                 "computed stop is the defined bad pattern); eps signs and None handling of the closedness flags; exact range guards; width "
                 "dispatch and forwarding; width-based crop slices and placement / lattice continuation evaluated on the extracted generator "
                 "formulas for small dyadic instances (finite-instance argument, labelled). Float label matching in sel/reindex is not decided.",
-        "design_ref": "DESIGN.md section 3, C17 (R17.1-R17.6)",
+        "design_ref": "DESIGN.md section 3, C17 (R17.1-R17.6); label reuse in section 8.8",
         "note": NOTE_COMMON,
         "technique": "integer-valuedness typing of generator arguments; flag-wise partial evaluation; finite-instance evaluation of extracted coordinate formulas",
     },
@@ -196,7 +201,7 @@ CLAIMS = {
                 "template's positional shape); output labelling (xdim, ydim) with matching transpose and template coordinates; value broadcast "
                 "and length guard; x through the xdim axis and y through the ydim axis, clamped; shapes in input order; fill/dtype/all_touched "
                 "forwarded. Which cells rasterio marks is trusted / not decided.",
-        "design_ref": "DESIGN.md section 3, C20 (R20.1-R20.5)",
+        "design_ref": "DESIGN.md section 3, C20 (R20.1-R20.5); R20.6 and the element-wise view in sections 8.7 / 8.8",
         "note": NOTE_COMMON,
         "technique": "provenance classification of the shape argument; call-binder pairing of dimension names inside the nested transform",
     },
